@@ -38,6 +38,8 @@ def handle : List String → Option String
   | ["c05", "ell", name] => do
     let E ← ellQ? name
     pure s!"{showRat E.a} {showOpt showRat E.fInv}"
+  | ["c05", "getitemkinds"] =>
+    pure (showList id Midgard.Generated.EllipsoidFlow.getitemCtorKinds)
   | ["c05", "ellnames"] =>
     pure (showList id (Midgard.Generated.Ellipsoids.table.map (·.1)))
   | ["c05", "q", "params", name] => do
